@@ -167,9 +167,18 @@ def annotate(net, rng):
             G_.nodes[n_]["pos"] = (float(i_), 0.0)
         if rng.random() < 0.3:
             G_.nodes[n_]["label"] = "x"
+    # routing tags on the edges may well be CALLED "origin" / "destination" (the exit a link's traffic leaves through, the
+    # entry it came from) and hold the very objects attached to nodes, the same one on several edges
+    dests_ = [d_["destination"] for d_ in G_.nodes.values() if "destination" in d_] or ["exit A"]
+    orgs_ = [d_["origin"] for d_ in G_.nodes.values() if "origin" in d_] or ["entry A"]
+    tag = rng.random() < 0.5
     for u_, v_ in list(G_.edges):
         if rng.random() < 0.5:
             G_.edges[u_, v_]["length"] = 1.0
+        if tag:
+            G_.edges[u_, v_]["destination"] = rng.choice(dests_)
+            if rng.random() < 0.6:
+                G_.edges[u_, v_]["origin"] = rng.choice(orgs_)
 
 
 def query(net, rng):
